@@ -422,6 +422,8 @@ def unary_templates():
     add('grpi', lambda x: OPN('grp', x, ci=True))
     for a in ('mas', 'mae', 'mals', 'male'):
         add(a, lambda x, a=a: OPN(a, x))
+    # a conditional without else-branch (its then-branch must stay one unit)
+    add('cond1', lambda x: OPN('cat', OPN('opt', OPN('cap', L('q'), name='g1')), OPN('cond', x, name='g1')), ('c',))
     return T
 
 
